@@ -156,6 +156,26 @@ def cases(ctx, n):
     return out
 
 
+def fixed_cases(ctx):
+    """deterministic family: n-fold operators whose count is written as arithmetic, against the plain count and the nested form, in heads (over an
+    atom nothing else derives) and bodies"""
+    out = []
+    c = ('atom', 'c')
+    ctxp = [{'part': 'always', 'head': ('choice', ['a', 'b']), 'body': []}]
+    for head in (True, False):
+        for op in (('next', 'wnext') if head else ('next', 'wnext', 'prev', 'wprev')):
+            pairs = [((op, '(3-1)', c), (op, 2, c)), ((op, '(3-1)', c), nest(op, 2, c)), ((op, '(1+1)', c), (op, 2, c)), ((op, '(2-1)', c), (op, None, c)), ((op, '(2-2)', c), c),
+                     ((op, '(4-1-1)', c), (op, 2, c)), ((op, '(1-2+3)', c), nest(op, 2, c)), ((op, None, (op, '(3-2)', c)), (op, 2, c))]
+            for f1, f2 in pairs:
+                for part in ('initial', 'always', 'dynamic'):
+                    if head:
+                        mk = lambda x: ctxp + [{'part': part, 'head': ('tel', ('or', x, ('atom', 'b'))), 'body': [('p', ('patom', 'a', 0))]}]
+                    else:
+                        mk = lambda x: ctxp + [{'part': 'always', 'head': ('choice', ['c']), 'body': []}, {'part': part, 'head': ('norm', 'w', 0), 'body': [('m', ('tel', x))]}]
+                    out.append({'law': 'nfold-arith-fixed', 'head': head, 'p1': mk(f1), 'p2': mk(f2), 'f1': f1, 'f2': f2})
+    return out
+
+
 def joint_cases(ctx, n):
     """the formula and its rewritten form as two different theory atoms of ONE program (they denote the same formula object or
     equivalent ones at the same states): compared with the program that has the original formula in both places"""
@@ -217,7 +237,7 @@ def mirror_cases(ctx, n):
 
 def run(ctx):
     H = 3 if ctx.quick else 4
-    cs = cases(ctx, 400 if ctx.quick else 1500) + mirror_cases(ctx, 100 if ctx.quick else 300) + joint_cases(ctx, 150 if ctx.quick else 500) + keyword_cases(ctx, 150 if ctx.quick else 500)
+    cs = cases(ctx, 400 if ctx.quick else 1500) + mirror_cases(ctx, 100 if ctx.quick else 300) + joint_cases(ctx, 150 if ctx.quick else 500) + keyword_cases(ctx, 150 if ctx.quick else 500) + fixed_cases(ctx)
     inputs = []
     for c in cs:
         inputs += [[lang.prog_txt(c['p1'])], [lang.prog_txt(c['p2'])]]
